@@ -13,6 +13,8 @@ pub struct Repository { pub _opaque: () }
 pub struct DateTime<T> { _p: std::marker::PhantomData<T> }
 #[derive(Clone, Debug)]
 pub struct FixedOffset;
+impl<T> DateTime<T> { pub fn to_rfc3339(&self) -> String { "2024-01-02T03:04:05+00:00".to_string() } }
+impl Repository { pub fn global_args_for_exec(&self) -> Vec<String> { vec!["-C".to_string(), "/work tree".to_string()] } }
 pub mod git { pub mod refs {
     use super::super::*;
     pub fn grep_ai_notes(_r: &Repository, _p: &str) -> Result<Vec<String>, String> { Ok(vec![]) }
@@ -112,6 +114,33 @@ fn gen_note(g: &mut Rng) -> Note {
         (f, (0..ne).map(|_| { let h = ["s1", "s2", "sx"][g.below(3) as usize].to_string(); let nr = 1 + g.below(2) as usize; (h, (0..nr).map(|_| { let a = 1 + g.below(8) as u32; (a, a + g.below(3) as u32) }).collect()) }).collect())
     }).collect()
 }
+// ---------------------------------------------------------------- the git blame command line
+/// input: w | revs (comma) | revs file or - | ranges a-b (comma) | since 0/1 | oldest or - | newest or - | contents 0/1 | path
+fn chk_args(c: &mut Ctx, w: bool, revs: &[String], file: Option<String>, ranges: &[(u32, u32)], since: bool, oldest: Option<String>, newest: Option<String>, contents: bool, path: &str) {
+    c.evaluated += 1;
+    let o = |x: &Option<String>| x.clone().unwrap_or("-".into());
+    let input = format!("ARGS|{}|{}|{}|{}|{}|{}|{}|{}|{}", w as u8, revs.join(","), o(&file), ranges.iter().map(|(a, b)| format!("{}-{}", a, b)).collect::<Vec<_>>().join(","), since as u8, o(&oldest), o(&newest), contents as u8, path);
+    let mut opts = mk_opts(false, false, false);
+    opts.ignore_whitespace = w; opts.ignore_revs = revs.to_vec(); opts.ignore_revs_file = file.clone();
+    opts.oldest_date = if since { Some(DateTime { _p: std::marker::PhantomData }) } else { None };
+    opts.oldest_commit = oldest.clone(); opts.newest_commit = newest.clone(); opts.contents_data = if contents { Some(b"x\n".to_vec()) } else { None };
+    // what `git blame` must be told, option by option (independent of the code under test)
+    let mut want: Vec<String> = vec!["-C".into(), "/work tree".into(), "blame".into(), "--line-porcelain".into()];
+    if w { want.push("-w".into()); }
+    for r in revs { want.push("--ignore-rev".into()); want.push(r.clone()); }
+    if let Some(f) = &file { want.push("--ignore-revs-file".into()); want.push(f.clone()); }
+    for (a, b) in ranges { want.push("-L".into()); want.push(format!("{},{}", a, b)); }
+    if since { want.push("--since".into()); want.push("2024-01-02T03:04:05+00:00".into()); }
+    match (&oldest, &newest) { (Some(a), Some(b)) => want.push(format!("{}..{}", a, b)), (None, Some(b)) => want.push(b.clone()), _ => {} }
+    if contents { want.push("--contents".into()); want.push("-".into()); }
+    want.push("--".into()); want.push(path.to_string());
+    let repo = Repository { _opaque: () };
+    let (rs, p2) = (ranges.to_vec(), path.to_string());
+    match guarded(move || repo.region_bh_args(&p2, &rs, &opts)) {
+        Err(p) => c.fail("region_bh_args", "safety", input, p, "no panic".into()),
+        Ok(got) => if got != want { c.fail("region_bh_args", "ensures#0", input, format!("{:?}", got), format!("{:?}", want)); },
+    }
+}
 fn main() {
     std::panic::set_hook(Box::new(|_| {}));
     let a: Vec<String> = std::env::args().collect();
@@ -119,6 +148,15 @@ fn main() {
     let want = |f: &str| a[2] == "*" || a[2] == f;
     if a[1] == "search" {
         let mut g = Rng(a[3].parse::<u64>().unwrap_or(0).wrapping_mul(0x9E3779B97F4A7C15) ^ 0x6a09e667f3bcc909);
+        if want("region_bh_args") {
+            let opt = |g: &mut Rng, v: &str| if g.below(2) == 0 { Some(v.to_string()) } else { None };
+            for _ in 0..3000 {
+                let revs: Vec<String> = (0..g.below(3)).map(|i| format!("rev{}", i)).collect();
+                let ranges: Vec<(u32, u32)> = (0..1 + g.below(3)).map(|i| (1 + 10 * i as u32, 5 + 10 * i as u32)).collect();
+                let (file, oldest, newest) = (opt(&mut g, ".git-blame-ignore-revs"), opt(&mut g, "abc123"), opt(&mut g, "def456"));
+                chk_args(&mut c, g.below(2) == 0, &revs, file, &ranges, g.below(2) == 0, oldest, newest, g.below(2) == 0, ["src/a.rs", "a b.txt", "-L"][g.below(3) as usize]);
+            }
+        }
         for _ in 0..4000 {
             let n = gen_note(&mut g);
             if want("AuthorshipLog::get_line_attribution") { for line in 0..12u32 { chk_lookup(&mut c, &n, ["a.rs", "b.rs", "c.rs"][g.below(3) as usize], line); } }
@@ -131,6 +169,15 @@ fn main() {
         }
     } else {
         // "<note> @ <file> <line>"  or  "<note|NONE> @ <file> range a-b orig o flags xyz"
+        if let Some(t) = a[3].strip_prefix("ARGS|") {
+            let q: Vec<&str> = t.split('|').collect();
+            let o = |x: &str| if x == "-" { None } else { Some(x.to_string()) };
+            let revs: Vec<String> = q[1].split(',').filter(|x| !x.is_empty()).map(|x| x.to_string()).collect();
+            let ranges: Vec<(u32, u32)> = q[3].split(',').filter(|x| !x.is_empty()).map(|x| { let (a, b) = x.split_once('-').unwrap(); (a.parse().unwrap(), b.parse().unwrap()) }).collect();
+            chk_args(&mut c, q[0] == "1", &revs, o(q[2]), &ranges, q[4] == "1", o(q[5]), o(q[6]), q[7] == "1", q[8]);
+            println!("DONE evaluated={}", c.evaluated);
+            return;
+        }
         let (note_s, rest) = a[3].split_once(" @ ").unwrap();
         let w: Vec<&str> = rest.split_whitespace().collect();
         if w.len() == 2 { chk_lookup(&mut c, &parse_note(note_s), w[0], w[1].parse().unwrap()); }
